@@ -28,6 +28,7 @@ def run(check):
     check.guarded("ARROW-BLOCK", c04.rule_arrow_block)
     check.guarded("FRESH-TEMP", X.rule_fresh_temp)
     check.guarded("SPREAD-ONCE", X.rule_spread_once)
+    check.guarded("KEPT-IN-PLACE", X.rule_kept_in_place)
     return {
         "explanation": "Structural necessary conditions of behaviour preservation decided over the typed HIR: root dispatch of every expression, order of hoisting against the ECMAScript evaluation order table, parenthesisation of hoisted comma expressions and of injected sequences, keep/replace wiring for identifiers, and single use of every input sub-tree.",
         "assumptions": ["ECMAScript evaluation order table (left before right, object before property, callee before arguments)"],
